@@ -77,7 +77,8 @@ pub struct World {
     // oscillator segment
     seg_start: i64,
     seg_end: i64,
-    e_start: i64,
+    /// clock error at `seg_start` in units of 10^-9 ns (exact: slope [ppb] x elapsed [ns])
+    e_start_fp: i128,
     slope_ppb: i64,
     // chronyd
     pub mode: Mode,
@@ -132,7 +133,7 @@ impl World {
             d,
             seg_start: m0,
             seg_end: m0,
-            e_start: e0,
+            e_start_fp: e0 as i128 * NS,
             slope_ppb: 0,
             mode: Mode::Sync,
             mode_end: m0,
@@ -156,9 +157,9 @@ impl World {
     }
 
     fn next_segment(&mut self, at: i64) {
-        let e = self.err_in_segment(at);
+        let e = self.err_fp(at);
         self.seg_start = at;
-        self.e_start = e;
+        self.e_start_fp = e;
         let flat = self.cfg.script == 5;
         self.slope_ppb = if flat {
             0
@@ -173,9 +174,14 @@ impl World {
         self.seg_end = at + self.rng.range(200_000_000, 40 * SEC);
     }
 
-    fn err_in_segment(&self, m: i64) -> i64 {
+    fn err_fp(&self, m: i64) -> i128 {
         let dt = (m - self.seg_start).max(0) as i128;
-        self.e_start + (self.slope_ppb as i128 * dt).div_euclid(NS) as i64
+        self.e_start_fp + self.slope_ppb as i128 * dt
+    }
+
+    /// clock error in whole ns, truncated towards zero (never overstates the error)
+    fn err_in_segment(&self, m: i64) -> i64 {
+        (self.err_fp(m) / NS) as i64
     }
 
     fn next_mode(&mut self, at: i64, first: bool) {
@@ -202,11 +208,14 @@ impl World {
                 _ => (Mode::Sync, r.range(2, 10) * SEC),
             },
             5 | 6 => (Mode::Sync, r.range(30, 600) * SEC),
+            // epoch: a few seconds of synchronisation, then silence for the configured length
+            7 if first => (Mode::Sync, r.range(4, 9) * SEC),
+            7 => (Mode::Silent, (self.cfg.leap_base as i64 + 60) * SEC),
             // mixed
             _ => match r.below(20) {
                 0..=9 => (Mode::Sync, r.range(3, 60) * SEC),
-                10 | 11 => (Mode::Unsync, r.range(1, 30) * SEC),
-                12 | 13 => (Mode::Stale, r.range(5, 200) * SEC),
+                10 | 11 => (Mode::Unsync, if r.chance(8) { r.range(900, 1700) * SEC } else { r.range(1, 30) * SEC }),
+                12 | 13 => (Mode::Stale, if r.chance(8) { r.range(900, 1700) * SEC } else { r.range(5, 200) * SEC }),
                 14 => (Mode::Restarting, r.range(1, 10) * SEC),
                 15 => (Mode::Silent, r.range(1, 12) * SEC),
                 16 => (Mode::Gone, r.range(1, 12) * SEC),
@@ -237,7 +246,7 @@ impl World {
             }
             if ev == next_upd {
                 // chronyd updates the clock: the error may jump towards zero
-                let e = self.err_in_segment(ev);
+                let e = self.err_fp(ev);
                 let e2 = match self.rng.below(4) {
                     0 => 0,
                     1 => e / 4,
@@ -245,9 +254,9 @@ impl World {
                     _ => e,
                 };
                 self.seg_start = ev;
-                self.e_start = e2;
+                self.e_start_fp = e2;
                 self.last_update_m = ev;
-                self.ref_time_ns = ev as i128 + self.cfg.t0_ns as i128 + e2 as i128;
+                self.ref_time_ns = ev as i128 + self.cfg.t0_ns as i128 + e2 / NS;
                 self.updates += 1;
             } else if ev == self.seg_end {
                 self.next_segment(ev);
@@ -327,7 +336,7 @@ impl World {
 
     fn write_phc(&mut self) -> PhcState {
         let st = match self.cfg.phc {
-            1 | 2 => PhcState::Present(self.crng.range(0, 50_000)),
+            1 | 2 => PhcState::Present(if self.crng.chance(30) { *self.crng.pick(&[0i64, 1, 777, 49_999, 1_000_000_000, 123_456_789_012]) } else { self.crng.range(0, 50_000) }),
             3 => match self.crng.below(10) {
                 0..=4 => PhcState::Present(self.crng.range(0, 50_000)),
                 5..=8 => PhcState::Missing,
@@ -399,23 +408,36 @@ impl verif_rt::chrony::ChronySim for Chronyd {
         w.polls[idx].err_at_reply = e;
         let rt_now = now as i128 + w.cfg.t0_ns as i128 + e as i128;
         let mk = |t: Tracking| Reply { status: CStatus::Success, cmd: 33, sequence: 0, body: ReplyBody::Tracking(t) };
+        // fields the bound does not depend on vary freely (a report is more than three numbers)
+        let mut fr = crate::util::Rng::new(w.crng.next());
+        let stratum = *fr.pick(&[0u16, 1, 2, 3, 15, 16]);
+        let ip = match fr.below(3) {
+            0 => ChronyAddr::default(),
+            1 => ChronyAddr::V4(std::net::Ipv4Addr::new(169, 254, 169, 123)),
+            _ => ChronyAddr::Id(fr.next() as u32),
+        };
+        // reference ids a real chronyd shows: the PHC refclock, the `local` pseudo-reference
+        // (127.127.1.1), an NTP server's IPv4 address, zero while unsynchronised
+        let ref_id = if w.ref_matches { PHC_REFID } else { *fr.pick(&[0x7f000001u32, 0x7F7F0101, 0xA9FEA97B, 0, 0x47505300, 0x50484331]) };
+        // (the source address is sometimes the reference id itself, as for NTP sources)
+        let ip = if fr.chance(25) { ChronyAddr::V4(std::net::Ipv4Addr::from(ref_id)) } else { ip };
+        let junk = [fr.range(-1000, 1000) as f64 * 1e-6, fr.range(-50, 50) as f64, fr.range(0, 100) as f64 * 1e-3, fr.range(-500, 500) as f64 * 1e-9];
         let base = |leap: u16, ref_time_ns: i128, off: f64, delay: f64, disp: f64, interval: f64, ref_id: u32| Tracking {
             ref_id,
-            ip_addr: ChronyAddr::default(),
-            stratum: 2,
+            ip_addr: ip,
+            stratum,
             leap_status: leap,
             ref_time: systime(ref_time_ns),
             current_correction: cf(off),
-            last_offset: cf(0.0),
-            rms_offset: cf(0.0),
-            freq_ppm: cf(0.0),
-            resid_freq_ppm: cf(0.0),
-            skew_ppm: cf(0.0),
+            last_offset: cf(junk[0]),
+            rms_offset: cf(junk[3].abs()),
+            freq_ppm: cf(junk[1]),
+            resid_freq_ppm: cf(junk[2]),
+            skew_ppm: cf(junk[2]),
             root_delay: cf(delay),
             root_dispersion: cf(disp),
             last_update_interval: cf(interval),
         };
-        let ref_id = if w.ref_matches { PHC_REFID } else { 0x7f000001 };
         let info = |t: &Tracking, ref_ns: i128| TrackingInfo {
             leap: t.leap_status,
             ref_time_ns: ref_ns,
